@@ -1,7 +1,7 @@
 #!/usr/bin/env python3
 """Sensitivity helper: run things against a scratch worktree of /repo with a patch applied.
 
-  mutant.py verify <patch> <demo_test.go>     suite passes with patch, demo fails with it, demo passes without it
+  mutant.py verify <patch> <demo_test.go> [--race]     suite passes with patch, demo fails with it, demo passes without it
   mutant.py check <prop> <patch> [--tier T] [--seed N]   run ./check <prop> against the patched scratch copy
 
 Scratch worktrees live under /tmp/mut-* and are removed afterwards.
@@ -49,8 +49,9 @@ def place_demo(d, demo):
     return "./" + sub if sub else "."
 
 
-def verify(patch, demo):
+def verify(patch, demo, race=False):
     ok = True
+    rflag = ["-race"] if race else []
     d = worktree(patch)
     try:
         rc, out = sh(["go", "build", "./..."], cwd=d)
@@ -60,18 +61,18 @@ def verify(patch, demo):
         print("suite with patch:", "passes" if rc == 0 else "FAILS\n" + out[-3000:])
         ok &= rc == 0
         pkg = place_demo(d, demo)
-        rc, out = sh(["go", "test", "-count=1", "-vet=off", "-run", "Demo|Mutant|Seed|M1|M2|Regress", pkg], cwd=d)
+        rc, out = sh(["go", "test", "-count=1", "-vet=off"] + rflag + ["-run", "Demo|Mutant|Seed|M1|M2|Regress", pkg], cwd=d)
         if rc == 0:
-            rc, out = sh(["go", "test", "-count=1", "-vet=off", pkg], cwd=d)
-        print("demo with patch:", "FAILS (good)" if rc != 0 else "passes (BAD)")
+            rc, out = sh(["go", "test", "-count=1", "-vet=off"] + rflag + [pkg], cwd=d)
+        print("demo with patch%s:" % (" (-race)" if race else ""), "FAILS (good)" if rc != 0 else "passes (BAD)")
         ok &= rc != 0
     finally:
         remove(d)
     d = worktree(None)
     try:
         pkg = place_demo(d, demo)
-        rc, out = sh(["go", "test", "-count=1", "-vet=off", pkg], cwd=d)
-        print("demo without patch:", "passes (good)" if rc == 0 else "FAILS (BAD)\n" + out[-3000:])
+        rc, out = sh(["go", "test", "-count=1", "-vet=off"] + rflag + [pkg], cwd=d)
+        print("demo without patch%s:" % (" (-race)" if race else ""), "passes (good)" if rc == 0 else "FAILS (BAD)\n" + out[-3000:])
         ok &= rc == 0
     finally:
         remove(d)
@@ -102,7 +103,7 @@ def check(prop, patch, tier, seed):
 def main():
     a = sys.argv[1:]
     if a and a[0] == "verify":
-        return verify(a[1], a[2])
+        return verify(a[1], a[2], "--race" in a)
     if a and a[0] == "check":
         tier, seed = "quick", 1
         if "--tier" in a:
